@@ -11,7 +11,7 @@ Same == UNCHANGED vars
 
 Ev(e) ==
   IF e.ev = "begin" THEN
-       /\ cur' = [op |-> e.op, slot |-> e.slot, before |-> parts]
+       /\ cur' = [op |-> e.op, slot |-> e.slot, before |-> parts, um |-> FALSE]
        /\ Chk(fds = {}, "fd_open_across_ops")
        /\ UNCHANGED <<parts, fds, owner>>
   ELSE IF e.ev = "sys" /\ e.call = "openat" THEN
@@ -28,25 +28,29 @@ Ev(e) ==
   ELSE IF e.ev = "sys" /\ e.call = "munmap" THEN
        /\ Chk(e.r >= 0 /\ Covered(e.r, e.off, e.len), "munmap_not_live")
        /\ IF e.r >= 0 THEN UnmapAt(e.r, e.off, e.len) ELSE parts' = parts
-       /\ UNCHANGED <<fds, owner, cur>>
+       /\ cur' = [cur EXCEPT !.um = TRUE]
+       /\ UNCHANGED <<fds, owner>>
   ELSE IF e.ev = "end" /\ e.op = "new" THEN
        /\ Chk(fds = {}, "fd_leak")
        \* a stream that cannot be set up is reported as an error
        /\ Chk(e.result = "ok" => (e.size > 0 /\ e.size % 4096 = 0 /\ e.size % e.elem = 0), "bad_size_accepted")
        /\ IF e.result = "ok"
           THEN /\ Chk(\E r \in {p.r : p \in parts \ cur.before} : TwoHalves(r, e.size), "halves_not_aliased")
+               \* the reserved range is never given up during a successful set-up: a hole could
+               \* be taken by another thread's mapping and then be overwritten by MAP_FIXED
+               /\ Chk(~cur.um, "hole_during_setup")
                /\ owner' = [s \in DOMAIN owner \cup {e.slot} |->
                                IF s = e.slot THEN (IF parts \ cur.before = {} THEN -1 ELSE (CHOOSE p \in parts \ cur.before : TRUE).r)
                                ELSE owner[s]]
           ELSE /\ Chk(parts = cur.before, "mapping_left_after_failed_new")
                /\ Chk(e.result = "err", "new_panicked")
                /\ owner' = owner
-       /\ cur' = [op |-> "none", slot |-> 0, before |-> {}]
+       /\ cur' = [op |-> "none", slot |-> 0, before |-> {}, um |-> FALSE]
        /\ UNCHANGED <<parts, fds>>
   ELSE IF e.ev = "end" /\ e.op = "drop" THEN
        /\ Chk(e.slot \notin DOMAIN owner \/ {p \in parts : p.r = owner[e.slot]} = {}, "mapping_left_after_drop")
        /\ Chk(fds = {}, "fd_leak")
-       /\ cur' = [op |-> "none", slot |-> 0, before |-> {}]
+       /\ cur' = [op |-> "none", slot |-> 0, before |-> {}, um |-> FALSE]
        /\ UNCHANGED <<parts, fds, owner>>
   ELSE IF e.ev = "quiet" THEN
        /\ Chk(parts = {}, "mappings_at_quiescence")
